@@ -37,6 +37,11 @@ func (pkg *LanguagePackage) ReadFrom(ch BytesChannel) error {
 	}
 	pkg.Status = LanguageStatus(status)
 
+	// The length includes the status byte.
+	if totalLength < 1 {
+		return fmt.Errorf("invalid length %d, expected at least 1", totalLength)
+	}
+
 	pkg.Cmd, err = ch.String(int(totalLength) - 1)
 	if err != nil {
 		return ErrNotEnoughBytes
